@@ -11,7 +11,9 @@ MANIFEST = {
                   "pointers; events accept / one recv() chunk / EOF / error / partial write), for every event sequence over any number of "
                   "clients and ids: the pairing table is symmetric, pairs two distinct live sessions, a peer is claimed by at most one "
                   "connector, a bridged session has a bridged partner (C25.inv); a chunk received from a bridged client is appended whole "
-                  "to the end of exactly its partner's write buffer and nothing else changes (delivery, delivery_spec); every write buffer "
+                  "to the end of exactly its partner's write buffer and nothing else changes (delivery, delivery_spec); when a bridge comes "
+                  "into being the partner is queued the BEGIN line and then everything the connector had pending, in order "
+                  "(bridge_handover); every write buffer "
                   "is a FIFO of exactly what was queued for that client (fifo, flush_fifo); every byte a step queues is either a reply "
                   "to the sending client or goes to the client whose bridge with the sender is established after the step, relayed bytes "
                   "being the sender's own (relay_only_to_bridged_partner, isolation_spec); EOF/error on one side of a bridge closes the "
